@@ -72,4 +72,12 @@ CHECKS = {
         "quick": [B("c19", what="negotiation product, level-2 round trips, <=1-byte corrupt streams + substitutions on one message")],
         "thorough": [B("c19", what="all levels, full window lattice, <=2-byte corrupt streams + substitutions on 3 messages", deadline=1800)],
     },
+    "C10": {
+        "level": "model_checking",
+        "text": "Explicit-state search to a fixpoint over the real buffered_socket.c + posix/socket.c compiled with a 16-byte write buffer (and boundary frame sizes of the real 5120-byte buffer): from every reachable (to_write, buffer content, frame ledger) state every frame shape, the writability callback, read and error events are applied, and at every writev call the kernel answer ranges over every accepted byte count, EAGAIN and EPIPE. On every transition the kernel's byte stream is parsed incrementally as whole frames (no partial frame followed by other data, no duplication, reordering, wrong or foreign byte), an accept-all drain on a copy must yield exactly the concatenation of accepted frames, refused frames must have contributed nothing while the connection stays open, offered bytes and iovecs stay in bounds, and no operation spins.",
+        "note": "Trusted: the harness's kernel stub and stream parser. Module level (callers are the 2-iovec senders of socket_peer.c / websocket.c / http_connection.c, which never close on -1). One known finding in two buffer sizes (frame torn after a partial kernel write when the rest does not fit) is listed in known_findings.txt.",
+        "technique": "explicit-state model checking of the implementation (BFS to fixpoint over canonical states, every kernel answer at every write call)",
+        "quick": [B("c10", what="16-byte buffer, <= 2 frames of 16 shapes, all kernel answers, fixpoint")],
+        "thorough": [B("c10", what="16-byte buffer <= 3 frames; 5120-byte buffer boundary shapes; cross-checks", deadline=1800)],
+    },
 }
